@@ -221,7 +221,15 @@ static void writer_case(Src &s) {
     if (how >= 3) st.label("w:prev-null-arg-first-call");
 }
 
+static void abandon_sweep_case(size_t T, unsigned structure, unsigned k, unsigned restart);
+
 static void run_case(Src &s) {
+    if (s.left() >= 8 && s.p[s.i] == 0xAA) {  // literal sweep case written by the enumerator
+        uint32_t t32;
+        memcpy(&t32, s.p + s.i + 4, 4);
+        abandon_sweep_case(t32 % 70000 < 16 ? 16 : t32 % 70000, s.p[s.i + 1], s.p[s.i + 2], s.p[s.i + 3] == 1 ? 1 : 2);
+        return;
+    }
     Decoded d = decode(s);
     if (d.writer_case) { writer_case(s); return; }
     size_t at = s.i;
@@ -240,11 +248,131 @@ static void run_case(Src &s) {
 }
 
 static void describe_case(Src &s, FILE *out) {
+    if (s.left() >= 8 && s.p[s.i] == 0xAA) {
+        uint32_t t32;
+        memcpy(&t32, s.p + s.i + 4, 4);
+        fprintf(out, "  abandon-sweep case: structure at offset %u, variant %u, abandoned after %u steps, restart %s\n", t32, s.p[s.i + 1], s.p[s.i + 2], s.p[s.i + 3] == 1 ? "reset" : "verify");
+        return;
+    }
     Decoded d = decode(s);
     if (d.writer_case) { fprintf(out, "  writer reuse case\n"); return; }
     fprintf(out, "previous: %s\nnext: %s\n  restart=%u prefill=%s state_fill=%02x\n", describe_doc(d.a).c_str(), describe_doc(d.b).c_str(), d.restart,
             d.prefill.empty() ? "zero" : ref::hex(d.prefill).c_str(), d.state_fill);
     try { parser_case(d, s, true, out); } catch (const Failure &f) { fprintf(out, "  FAILS: %s\n", f.sig.c_str()); }
+}
+
+
+// ---------------------------------------------------------------------------
+// Deterministic sweep "abandon anywhere around a power-of-two offset": documents whose nested structure starts at
+// (or 0..7 bytes before) offset 2^8, 2^15, 2^16-1, 2^16, 2^16+1; an entering-everything traversal is abandoned after
+// every possible number of steps; the object is restarted with reset or verify; the full traversal that follows
+// must give the trace of a freshly initialised twin.
+static void walk_all(binson_parser *p, bool arr, unsigned max_steps, std::vector<uint64_t> *trace) {
+    std::vector<bool> st;
+    unsigned steps = 0;
+    auto ob = [&](uint64_t x) { if (trace) trace->push_back(x); };
+    if (steps++ >= max_steps) return;
+    bool r = arr ? binson_parser_go_into_array(p) : binson_parser_go_into_object(p);
+    ob(r);
+    if (!r) return;
+    st.push_back(!arr);
+    while (!st.empty() && steps < max_steps) {
+        steps++;
+        bool n = binson_parser_next(p);
+        ob(mix(n, (uint64_t)p->error_flags));
+        if (!n) {
+            bool l = st.back() ? binson_parser_leave_object(p) : binson_parser_leave_array(p);
+            ob(mix(l, binson_parser_get_depth(p)));
+            if (!l) return;
+            st.pop_back();
+            continue;
+        }
+        binson_type t = binson_parser_get_type(p);
+        ob((uint64_t)t);
+        if (st.back()) { bbuf *nm = binson_parser_get_name(p); ob(nm ? nm->bsize : 999999); }
+        ob((uint64_t)binson_parser_get_integer(p));
+        if (t == BINSON_TYPE_OBJECT || t == BINSON_TYPE_ARRAY) {
+            if (steps++ >= max_steps) return;
+            bool e = t == BINSON_TYPE_OBJECT ? binson_parser_go_into_object(p) : binson_parser_go_into_array(p);
+            ob(mix(e, binson_parser_get_depth(p)));
+            if (!e) return;
+            st.push_back(t == BINSON_TYPE_OBJECT);
+        }
+    }
+}
+
+static Bytes sweep_doc(size_t T, unsigned structure) {
+    // nested part
+    Value g; g.k = ref::K_INT; g.i = 3; g.has_name = true; g.name = Bytes{'g'};
+    Value og; og.k = ref::K_OBJ; og.c.push_back(g);
+    Value one; one.k = ref::K_INT; one.i = 1;
+    Value f; f.k = ref::K_ARR; f.c.push_back(one); f.c.push_back(og); f.has_name = true; f.name = Bytes{'f'};
+    Value e; e.k = ref::K_INT; e.i = 2; e.has_name = true; e.name = Bytes{'e'};
+    Value d; d.k = ref::K_OBJ; d.c.push_back(e); d.c.push_back(f); d.has_name = true; d.name = Bytes{'d'};
+    Value c1 = one; c1.has_name = true; c1.name = Bytes{'c'};
+    Value b; b.k = ref::K_OBJ; b.c.push_back(c1); b.c.push_back(d);
+    Value root;
+    bool arr = structure & 1;
+    root.k = arr ? ref::K_ARR : ref::K_OBJ;
+    size_t head = 1 + (arr ? 0 : 2);
+    size_t L = T - head - 2;
+    if (L > 127) L = T - head - 3;
+    if (L > 32767) L = T - head - 5;
+    Value pad; pad.k = ref::K_STR; pad.s.assign(L, (uint8_t)'p'); pad.has_name = !arr;
+    root.c.push_back(pad);
+    if (arr) { Value w; w.k = ref::K_ARR; w.c.push_back(b); root.c.push_back(w); Value five = one; five.i = 5; root.c.push_back(five); }
+    else { b.has_name = true; b.name = Bytes{'b'}; root.c.push_back(b); Value z = one; z.has_name = true; z.name = Bytes{'z'}; z.i = 3; root.c.push_back(z); }
+    return ref::encode(root);
+}
+
+static void abandon_sweep_case(size_t T, unsigned structure, unsigned k, unsigned restart) {
+    Bytes doc = sweep_doc(T, structure);
+    bool arr = structure & 1;
+    PBox used, fresh;
+    used.make(6, nullptr, 0, 0);
+    used.set_input(doc);
+    fresh.make(6, nullptr, 0, 0);
+    fresh.set_input(doc);
+    if (!used.init(arr) || !fresh.init(arr)) VH_FAIL("harness/abandon-sweep-init", "init failed");
+    walk_all(used.p, arr, k, nullptr);  // previous use, abandoned after k steps
+    bool ok = restart == 1 ? binson_parser_reset(used.p) : binson_parser_verify(used.p);
+    if (!ok) VH_FAIL(fmt("C12/abandon-sweep/%s-refused", restart == 1 ? "reset" : "verify"), "structure at offset %zu (variant %u), abandoned after %u steps: %s returned false on a valid document (error %s)", T, structure, k, restart == 1 ? "reset" : "verify", err_name(used.p->error_flags));
+    std::vector<uint64_t> tu, tf;
+    walk_all(used.p, arr, 100000, &tu);
+    walk_all(fresh.p, arr, 100000, &tf);
+    if (tu != tf) {
+        size_t i = 0;
+        while (i < tu.size() && i < tf.size() && tu[i] == tf[i]) i++;
+        VH_FAIL(fmt("C12/abandon-sweep/differs-after-%s", restart == 1 ? "reset" : "verify"), "structure at offset %zu (variant %u), previous traversal abandoned after %u steps (cursor was mid-document), then %s: the following full traversal differs from a fresh parser's at observation %zu (error now %s)", T, structure, k, restart == 1 ? "reset" : "verify", i, err_name(used.p->error_flags));
+    }
+}
+
+#define VH_HAS_ENUM
+static int enumerate(int shard, int nshards, const char *tier) {
+    bool thorough = tier && !strcmp(tier, "thorough");
+    static const size_t targets[] = {256, 32768, 65535, 65536, 65537};
+    Stats &st = stats();
+    unsigned idx = 0;
+    for (size_t t : targets)
+        for (unsigned d = 0; d < (thorough ? 12u : 6u); d++)
+            for (unsigned structure = 0; structure < 2; structure++)
+                for (unsigned k = 0; k < 30; k++)
+                    for (unsigned restart = 1; restart <= 2; restart++) {
+                        if ((int)(idx++ % (unsigned)nshards) != shard) continue;
+                        try {
+                            abandon_sweep_case(t - d, structure, k, restart);
+                        } catch (const Failure &) {
+                            uint8_t cs[8] = {0xAA, (uint8_t)structure, (uint8_t)k, (uint8_t)restart};
+                            uint32_t t32 = (uint32_t)(t - d);
+                            memcpy(cs + 4, &t32, 4);
+                            vh_save_fail_case(cs, 8);
+                            throw;
+                        }
+                        st.evaluations++;
+                        st.count("enum_abandon_sweep_cases");
+                        st.nontrivial(mix(mix(0xAAAA, t - d), (structure * 64 + k) * 4 + restart));
+                    }
+    return 0;
 }
 
 #include "glue.hpp"
